@@ -5,7 +5,7 @@
    theorems, for all histories and fault plans. *)
 From Coq Require Import List NArith Bool.
 From Shovel Require Import Model.TaskTypes Model.TaskDb Model.Task Model.TaskNode Model.TaskSys
-  Model.TaskSpec Model.TaskWitness Proofs.TaskLegacyP Proofs.C03P.
+  Model.TaskSpec Model.TaskWitness Proofs.TaskLegacyP Proofs.C03P Proofs.TaskLiveP Proofs.C03LiveP.
 Import ListNotations.
 Open Scope N_scope.
 
@@ -57,6 +57,54 @@ Theorem below_fork_untouched : forall c H, cfg_ok c -> history_ok H -> forall p0
   /\ exists q, pv c (r_db (step c s d)) = render c (p0 ++ q).
 Proof. exact below_fork. Qed.
 Print Assumptions below_fork_untouched.
+
+(* LIVENESS.  Full statement (NOT proved): the node may keep answering from
+   older versions (stale cache entries) for up to K answers before it serves
+   only the final chain; then some number of fault-free steps reaches the
+   canonical table. *)
+Definition settled_converges_full : Prop :=
+  forall c H fin K d,
+    cfg_ok c -> t_hashes c = true -> t_deps c = [] -> history_ok H -> In fin H -> hash_identifies H ->
+    (forall b, In b fin -> NoDup (map fst (b_rows b))) ->
+    TaskInvH c H d ->
+    (forall x, In x (d_curs (pv c d)) -> c_num x < clip c (height fin - 1)) ->
+    exists N, forall ss, (N <= length ss)%nat ->
+      at_most_stale (t_hashes c) H fin K (concat ss) ->
+      Forall (fun r => exists o, r = Fin o) (snd (run_steps repaired c ss d)) ->
+      exists g' h, pv c (run_end c ss d) = render c g'
+                   /\ Forall (on_chain true fin) (concat g')
+                   /\ gpos g' = Some (clip c (height fin - 1), h).
+
+(* Proved part: no stale answers (K = 0; the node serves the final chain [ch]).
+   The batches [p] below the fork are blocks of the final chain, the batches
+   [q] above it are orphaned (at most 1000 of them: the reorg bound of one
+   step), the head exceeds every recorded position.  Then ONE fault-free step
+   (6 operations per orphaned batch + 12) unwinds all of [q] and indexes the
+   next blocks of the final chain, and at most target - position further steps
+   reach: every indexed block is the final chain's, position = min(head, stop).
+   By [cursor_on_chain_implies_table_canonical] / C01 [growth_table_is_projection]
+   the table is then the final chain's projection; by [below_fork_untouched]
+   the rows of [p] were never touched. *)
+Theorem settled_converges_partial : forall c ch,
+  cfg_ok c -> wf_chain ch -> height ch < nmax -> t_deps c = [] ->
+  (forall b, In b ch -> NoDup (map fst (b_rows b))) -> t_hashes c = true ->
+  forall d p q ln x,
+  pv c d = render c (p ++ q) -> wf_ghost c (p ++ q) ->
+  Forall (on_chain (t_hashes c) ch) (concat p) ->
+  Forall (orphan ch) q ->
+  (forall y, In y (concat (p ++ q)) -> b_num y < clip c (height ch - 1)) ->
+  (length q <= 1000)%nat ->
+  blk_at ch ln = Some x -> at_pos c p ln -> ln < clip c (height ch - 1) ->
+  let F := (6 * length q + 12)%nat in
+  let x1 := exec_honest F (t_uniq c) (t_hashes c) ch (converge c) d None in
+  r_out x1 = Fin OConverged
+  /\ exists n g', (n <= N.to_nat (clip c (height ch - 1) - ln))%nat
+       /\ pv c (iter (hstepf c ch) n (r_db x1)) = render c g' /\ wf_ghost c g'
+       /\ Forall (on_chain (t_hashes c) ch) (concat g')
+       /\ (exists h, gpos g' = Some (clip c (height ch - 1), h))
+       /\ outside c (iter (hstepf c ch) n (r_db x1)) = outside c d.
+Proof. exact settled_lemma. Qed.
+Print Assumptions settled_converges_partial.
 
 (* The pinned code: (a) Task.Delete keeps the rows of the batch's earlier
    blocks; (b) a batch whose partitions come from different versions is
